@@ -113,7 +113,7 @@ func osTwinRun(c corr.Case) ([]string, []Node, func()) {
 		panic(err)
 	}
 	syscallUmask()
-	fs := &rootedFs{afero.NewOsFs(), dir}
+	fs := &rootedFs{afero.NewOsFs(), dir, false}
 	r := NewRunner(fs)
 	var out []string
 	var snap []Node
@@ -268,9 +268,9 @@ func diffTrees(memT, osT []Node) string {
 
 type wfHandle struct {
 	dir, readable, writable, closed, gone bool
-	path                            string
-	pages                           int
-	seenAt                          int
+	path                                  string
+	pages                                 int
+	seenAt                                int
 }
 
 type wf struct {
